@@ -1,0 +1,1 @@
+//! Verification hooks: heap data structures (cargo feature `mmtk_verif`; add-only wrappers).
